@@ -8,7 +8,7 @@ from ..source import get_source
 from ..grammar import get_grammar
 from ..emission import get_emission, helper_calls
 from ..runtime import get_runtime, may_complete_normally
-from ..finite import Evaluator, AV, Unknown, AbsRaise, const_av
+from ..finite import evaluator_for, Evaluator, AV, Unknown, AbsRaise, const_av
 from ..regexmodel import group_role
 from ..symeval import NumV, GroupStr, Opaque, Code, Part, Const
 from .common import check_plumbing, function_token_of, skeleton_of, all_skeletons, reachable_function_emissions
@@ -140,7 +140,7 @@ def r1(run: Run, src, g, em, rt):
             raise Unknown('binary search result')
         for sm in (const_av(True), const_av(1)):
             rec.clear()
-            ev = Evaluator(cp.members, hooks={'_match': m_hook, '_binary_search': b_hook})
+            ev = evaluator_for(cp, hooks={'_match': m_hook, '_binary_search': b_hook})
             construct = f'_xmatch[{cp.label}]/defaults(search_mode={sm.val!r})'
             try:
                 ev.call_method('_xmatch', [V, ARR, const_av(0), sm])
@@ -506,7 +506,7 @@ def r7_eval(run: Run, rt, only=None):
     """the same obligations as the structural R7, decided by abstract evaluation (engine F) of the helper on small key columns:
     exact mode answers at the FIRST equal key, approximate mode on ascending keys at the LAST key <= value (the last row when
     the value exceeds every key, #N/A when it is below every key)"""
-    from ..finite import Evaluator, AV, const_av, Unknown, AbsRaise
+    from ..finite import evaluator_for, Evaluator, AV, const_av, Unknown, AbsRaise
 
     def area(keys):
         return AV('list', items=tuple(AV('list', items=(const_av(k), AV('str', text='other', val=f'P{i + 1}')))
@@ -530,7 +530,7 @@ def r7_eval(run: Run, rt, only=None):
                     args = [const_av(val), area(keys), const_av(0 if mode == 'exact' else 1)]
                     want = want_pos
                 construct = f'{h}[{cp.label}]/{mode}/{desc}'
-                ev = Evaluator(cp.members, max_depth=8)
+                ev = evaluator_for(cp, max_depth=8)
                 try:
                     res = ev.call_method(h, args)
                 except Unknown as u:
@@ -566,7 +566,7 @@ def r7_eval_all(run: Run, rt):
 def r10(run: Run, rt):
     """candidacy of a row: whether a key takes part in the scan may depend on blank / text / number, never on int versus float --
     2 and 2.0 are the same Excel number.  The helpers are evaluated abstractly (engine F) on a one-row area."""
-    from ..finite import Evaluator, AV, const_av, Unknown, AbsRaise
+    from ..finite import evaluator_for, Evaluator, AV, const_av, Unknown, AbsRaise
     payload = AV('str', text='other', val='PAYLOAD')
     grid = [('int key 2 / float value 2.0', 2, 2.0, True), ('float key 2.0 / int value 2', 2.0, 2, True),
             ('int key 2 / int value 2', 2, 2, True), ('float key 2.5 / float value 2.5', 2.5, 2.5, True),
@@ -586,7 +586,7 @@ def r10(run: Run, rt):
                     args = [const_av(val), area, const_av(0 if exact else 1)]
                     want = 1
                 construct = f'{h}[{cp.label}]/{desc}'
-                ev = Evaluator(cp.members, max_depth=8)
+                ev = evaluator_for(cp, max_depth=8)
                 try:
                     res = ev.call_method(h, args)
                 except Unknown as u:
